@@ -48,12 +48,13 @@ DEV_BOUND = 2
 CACHE_SIZES = (2, 3, 4)
 WARM = ("twice", "prefix", "mid")
 PREFIX_DISPATCHES = 2
-N_QUICK, N_THOROUGH = 4, 8
+N_QUICK, N_THOROUGH = 3, 8
 MAX_DISPATCH = 3000
 
 DATA = 0x2000
 
-# (name, source, initial registers (a string value names a label), tier: True = also in quick)
+# (name, source, initial registers (a string value names a label), tier flag: 2 = quick on both backends,
+# 1 = quick on the python backend only (gcc compiles every new block: ~2 s on a loaded machine), 0 = thorough only)
 PROGRAMS = [
     ("straight", """
 main:
@@ -66,7 +67,7 @@ main:
     ROL EAX, 5
     MOV DWORD PTR [EDI+4], EAX
     RET
-""", {"EBX": 0x1234, "ECX": 0x55, "EDI": DATA}, True),
+""", {"EBX": 0x1234, "ECX": 0x55, "EDI": DATA}, 2),
     ("count_loop", """
 main:
     MOV ECX, 5
@@ -77,7 +78,7 @@ loop:
     DEC ECX
     JNZ loop
     RET
-""", {}, True),
+""", {}, 2),
     ("self_loop", """
 main:
     LEA EAX, DWORD PTR [EAX+EAX*2+1]
@@ -85,7 +86,7 @@ main:
     DEC ECX
     JNZ main
     RET
-""", {"ECX": 4, "EAX": 2}, True),
+""", {"ECX": 4, "EAX": 2}, 2),
     ("mid_jump_back", """
 main:
     MOV ECX, 3
@@ -96,7 +97,7 @@ mid:
     DEC ECX
     JNZ mid
     RET
-""", {}, True),
+""", {}, 2),
     ("nested_calls", """
 main:
     MOV EAX, 1
@@ -112,7 +113,7 @@ f:
 g:
     XOR EAX, 0x5A
     RET
-""", {}, True),
+""", {}, 2),
     ("cond_both_ways", """
 main:
     MOV ECX, 6
@@ -129,7 +130,7 @@ next:
     DEC ECX
     JNZ loop
     RET
-""", {}, True),
+""", {}, 2),
     ("nested_loops", """
 main:
     XOR EAX, EAX
@@ -145,7 +146,7 @@ inner:
     DEC EDX
     JNZ outer
     RET
-""", {}, True),
+""", {}, 1),
     ("mem_loop", """
 main:
     MOV ECX, 4
@@ -158,7 +159,7 @@ fill:
     JNZ fill
     MOV DWORD PTR [EDI], EAX
     RET
-""", {"EDI": DATA}, True),
+""", {"EDI": DATA}, 1),
     ("rep_movs", """
 main:
     MOV ECX, 5
@@ -167,7 +168,7 @@ main:
     ADD EAX, ECX
     ADD EAX, ESI
     RET
-""", {"ESI": DATA + 2, "EDI": DATA + 0x20, "EBX": DATA}, True),
+""", {"ESI": DATA + 2, "EDI": DATA + 0x20, "EBX": DATA}, 2),
     ("push_pop_loop", """
 main:
     MOV ECX, 3
@@ -184,7 +185,7 @@ down:
     DEC ECX
     JNZ down
     RET
-""", {"EAX": 7}, True),
+""", {"EAX": 7}, 1),
     ("fallthrough_chain", """
 main:
     XOR EAX, EAX
@@ -201,7 +202,7 @@ bad:
     MOV EAX, 0xDEAD
 out:
     RET
-""", {}, True),
+""", {}, 2),
     ("forward_into_middle", """
 main:
     XOR EAX, EAX
@@ -218,7 +219,7 @@ tail_mid:
     JMP tail
 out:
     RET
-""", {}, True),
+""", {}, 1),
     ("call_in_loop", """
 main:
     MOV ECX, 3
@@ -232,7 +233,7 @@ loop:
 f:
     IMUL EAX, EAX, 7
     RET
-""", {}, True),
+""", {}, 1),
     ("indirect", """
 main:
     MOV ECX, 2
@@ -253,7 +254,7 @@ f1:
 f2:
     SHL EAX, 4
     RET
-""", {"EDX": "f1", "EBX": "f2", "ESI": "fin"}, True),
+""", {"EDX": "f1", "EBX": "f2", "ESI": "fin"}, 1),
     ("fault_store_runs_off_page", """
 main:
     MOV ECX, 6
@@ -266,7 +267,7 @@ loop:
     DEC ECX
     JNZ loop
     RET
-""", {"EDI": DATA + 0x30}, True),
+""", {"EDI": DATA + 0x30}, 2),
     ("fault_load_unmapped", """
 main:
     MOV EDX, 0x21
@@ -274,7 +275,7 @@ main:
     MOV EAX, DWORD PTR [EBX]
     ADD EDX, 1
     RET
-""", {"EBX": 0x5000}, True),
+""", {"EBX": 0x5000}, 2),
     ("div_until_zero", """
 main:
     MOV ECX, 3
@@ -285,7 +286,7 @@ loop:
     DIV ECX
     ADD EBX, EAX
     JMP loop
-""", {}, True),
+""", {}, 2),
     ("loop_instr", """
 main:
     MOV ECX, 4
@@ -295,7 +296,7 @@ l:
     ROL EAX, 3
     LOOP l
     RET
-""", {}, True),
+""", {}, 1),
     ("long_straight", """
 main:
     MOV EAX, 1
@@ -315,7 +316,7 @@ main:
     ADD EAX, 0x7
     SUB EBX, EAX
     RET
-""", {}, True),
+""", {}, 1),
     ("head_after_middle", """
 main:
     MOV ECX, 2
@@ -328,7 +329,7 @@ body_mid:
     DEC ECX
     JNZ body
     RET
-""", {"EAX": 5}, True),
+""", {"EAX": 5}, 2),
     ("cmov_setcc", """
 main:
     MOV ECX, 3
@@ -342,7 +343,7 @@ l:
     DEC ECX
     JNZ l
     RET
-""", {"EDX": 9}, True),
+""", {"EDX": 9}, 1),
     ("string_loop", """
 main:
     MOV ECX, 4
@@ -353,7 +354,7 @@ l:
     LOOP l
     MOV EAX, DWORD PTR [EBX+0x10]
     RET
-""", {"ESI": DATA + 4, "EDI": DATA + 0x10, "EBX": DATA}, True),
+""", {"ESI": DATA + 4, "EDI": DATA + 0x10, "EBX": DATA}, 1),
     ("recursion", """
 main:
     MOV ECX, 4
@@ -369,7 +370,7 @@ fact:
     CALL fact
 done:
     RET
-""", {}, True),
+""", {}, 1),
     ("restart_once", """
 main:
     ADD EAX, 0x31
@@ -380,7 +381,7 @@ main:
     JMP main
 out:
     RET
-""", {"EAX": 3}, True),
+""", {"EAX": 3}, 1),
     ("jecxz_skip", """
 main:
     MOV EAX, 2
@@ -392,7 +393,7 @@ l:
 out:
     ADD EAX, 1
     RET
-""", {"ECX": 3}, False),
+""", {"ECX": 3}, 0),
     ("two_callers", """
 main:
     CALL a
@@ -409,7 +410,7 @@ b:
 c:
     LEA EAX, DWORD PTR [EAX+EAX*8+2]
     RET
-""", {}, False),
+""", {}, 0),
     ("xchg_mem_loop", """
 main:
     MOV ECX, 3
@@ -421,7 +422,7 @@ l:
     DEC ECX
     JNZ l
     RET
-""", {"EDI": DATA + 8, "EAX": 0x77}, False),
+""", {"EDI": DATA + 8, "EAX": 0x77}, 0),
     ("switch", """
 main:
     MOV ECX, 3
@@ -441,14 +442,14 @@ next:
     DEC ECX
     JNZ l
     RET
-""", {}, False),
+""", {}, 0),
     ("fault_ret_to_unmapped", """
 main:
     MOV EAX, 5
     PUSH 0x7000
     ADD EAX, 1
     RET
-""", {}, False),
+""", {}, 0),
     ("byte_regs", """
 main:
     MOV ECX, 3
@@ -460,10 +461,11 @@ l:
     DEC ECX
     JNZ l
     RET
-""", {"EAX": 0x1234}, False),
+""", {"EAX": 0x1234}, 0),
 ]
 
 _mods = {}
+REF_CFG = (("ml", 1), ("me", 1))
 
 
 def _load():
@@ -476,8 +478,14 @@ def _load():
     return _mods
 
 
-def programs(quick):
-    return [p for p in PROGRAMS if p[3] or not quick]
+def program_backends(quick):
+    """[(program index, backend)] of the tier."""
+    out = []
+    for pi, p in enumerate(PROGRAMS):
+        for backend in BACKENDS:
+            if not quick or p[3] == 2 or (p[3] == 1 and backend == "python"):
+                out.append((pi, backend))
+    return out
 
 
 def deviations(n):
@@ -506,7 +514,8 @@ def _prepare(prog):
 
 
 def run_config(prog, backend, cfg):
-    """One run of @prog under the schedule @cfg (tuple of deviations). Returns (Obs, info)."""
+    """One run of @prog under the schedule @cfg (tuple of deviations). Returns the run summary (mc.jitcmp.summary)
+    extended with the number of evicted blocks and the length of the warm-up run."""
     m = _load()
     J, C = m["J"], m["C"]
     code, labels, offs, regs = _prepare(prog)
@@ -536,148 +545,169 @@ def run_config(prog, backend, cfg):
             warm_obs = C.execute(jit, offs[len(offs) // 2], max_dispatch=200)
         C.restore(jit, snap, skip_pages=(J.CODE,))
     obs = C.execute(jit, start, max_dispatch=MAX_DISPATCH)
-    info = {"evicted": evicted[0], "warm_dispatches": len(warm_obs.dispatch) if warm_obs else 0}
-    return obs, info
-
-
-def _term(obs):
-    """How the run ended, without configuration-dependent text."""
-    if obs.stopped:
-        return obs.stopped
-    return (obs.error or "none").split(":")[0]
-
-
-def _cfg_sig(cfg):
-    return "+".join("%s=%s" % (k, (("1" if v == 1 else "n") if k in ("ml", "me") else v)) for k, v in cfg) or "default"
-
-
-def judge(prog, backend, cfg, ref, obs):
-    """Compare one configuration's run with the single-step reference of the same backend."""
-    m = _load()
-    C = m["C"]
-    name = prog[0]
-    out = []
-    what_cfg = ", ".join("%s=%s" % kv for kv in cfg) or "default schedule"
-    comps = C.diff(ref, obs)
-    if ref.pc != obs.pc:
-        comps.append("pc")
-    if _term(ref) != _term(obs):
-        comps.append("termination")
-    if comps:
-        out.append(("final-state:%s:%s:%s:%s" % (backend, name, _cfg_sig(cfg), "+".join(comps)),
-                    "program %s on %s with %s: final state differs from the single-step run (%s); ended %s at pc=%s vs "
-                    "single-step %s at pc=%s" % (name, backend, what_cfg, C.describe_diff(ref, obs, ("single-step", "config")),
-                                                 _term(obs), hex(obs.pc), _term(ref), hex(ref.pc))))
-    t, r = obs.dispatch, ref.dispatch
-    bad = None
-    if not t or t[0] != r[0]:
-        bad = "first-address"
-    elif not C.is_subsequence(t, r):
-        bad = "not-a-subsequence"
-    elif t[-1] != r[-1]:
-        bad = "last-address"
-    if bad:
-        out.append(("trace:%s:%s:%s:%s" % (backend, name, _cfg_sig(cfg), bad),
-                    "program %s on %s with %s: dispatch trace %s is not an order-preserving subsequence (same first/last "
-                    "address) of the executed instruction sequence %s" % (name, backend, what_cfg, [hex(x) for x in t[:40]],
-                                                                          [hex(x) for x in r[:60]])))
+    out = C.summary(obs)
+    out["evicted"] = evicted[0]
+    out["warm_dispatches"] = len(warm_obs.dispatch) if warm_obs else 0
     return out
 
 
-def ref_work(shard):
-    """Phase 0: single-step reference and default-schedule run of one (program, backend)."""
-    _load()
-    pi, backend = shard
-    prog = PROGRAMS[pi]
-    ref, _ = run_config(prog, backend, (("ml", 1), ("me", 1)))
-    default, _ = run_config(prog, backend, ())
-    if ref.stopped == "budget":
-        raise RuntimeError("reference run of %s hit the dispatch budget" % prog[0])
-    return ref, default
+def failures(ref, s):
+    """How the run summary @s contradicts the single-step reference @ref: list of (kind, detail)."""
+    C = _load()["C"]
+    out = []
+    comps = C.diff(ref, s)
+    if ref["pc"] != s["pc"]:
+        comps.append("pc")
+    if ref["term"] != s["term"]:
+        comps.append("termination")
+    if comps:
+        out.append(("final-state", "+".join(comps)))
+    t, r = s["dispatch"], ref["dispatch"]
+    if not t or t[0] != r[0]:
+        out.append(("trace", "first-address"))
+    elif not C.is_subsequence(t, r):
+        out.append(("trace", "not-a-subsequence"))
+    elif t[-1] != r[-1]:
+        out.append(("trace", "last-address"))
+    return out
+
+
+def sub_configs(cfg):
+    """Sub-schedules of @cfg, simplest first, ending with @cfg itself."""
+    if len(cfg) == 2:
+        return [(), (cfg[0],), (cfg[1],), cfg]
+    if len(cfg) == 1:
+        return [(), cfg]
+    return [()]
+
+
+def _cfg_sig(cfg):
+    return "+".join("%s=%s" % (k, (("1" if v == 1 else "n") if k in ("ml", "me") else v)) for k, v in cfg) or "default-schedule"
+
+
+def _cfg_text(cfg):
+    return ", ".join("%s=%s" % kv for kv in cfg) or "default schedule"
+
+
+def judge(prog, backend, cfg, get):
+    """Violations of one configuration. @get(cfg) -> run summary (from the collected results, or computed on demand).
+    A failure is attributed to the simplest sub-schedule that already fails in the same way, so that one defect
+    does not produce one signature per schedule it survives in."""
+    C = _load()["C"]
+    ref = get(REF_CFG)
+    s = get(cfg)
+    out = []
+    for kind, detail in failures(ref, s):
+        culprit = cfg
+        for sub in sub_configs(cfg):
+            if (kind, detail) in failures(ref, get(sub)):
+                culprit = sub
+                break
+        sig = "%s:%s:%s:%s:%s" % (kind, backend, prog[0], _cfg_sig(culprit), detail)
+        if kind == "final-state":
+            what = ("program %s on %s with %s: final state differs from the single-step run (%s); ended %s at pc=%s, "
+                    "single-step run ended %s at pc=%s [already so with: %s]" % (
+                        prog[0], backend, _cfg_text(cfg), C.describe_diff(ref, s, ("single-step", "this")) or "jitter pc / termination only",
+                        s["term"], hex(s["pc"]), ref["term"], hex(ref["pc"]), _cfg_text(culprit)))
+        else:
+            what = ("program %s on %s with %s: dispatch trace %s is not an order-preserving subsequence with the same "
+                    "first and last address of the executed instruction sequence %s [%s; already so with: %s]" % (
+                        prog[0], backend, _cfg_text(cfg), [hex(x) for x in s["dispatch"][:40]],
+                        [hex(x) for x in ref["dispatch"][:60]], detail, _cfg_text(culprit)))
+        out.append((sig, what))
+    return out
 
 
 def work(shard):
-    """shard = (program index, backend, n, [config indexes], reference Obs, default-schedule Obs)."""
-    from mc.runner import violation
+    """shard = (program index, backend, n, [config indexes]) -> [(config index, run summary)]."""
     _load()
-    pi, backend, n, idxs, ref, default = shard
-    prog = PROGRAMS[pi]
+    pi, backend, n, idxs = shard
     cfgs = configs(n)
-    res = {"evaluations": 0, "nontrivial": 0, "evictions": 0, "warm_reuse": 0, "viol": [], "outcomes": set(),
-           "trace_shapes": set(), "samples": []}
-    for ci in idxs:
-        cfg = cfgs[ci]
-        obs, info = run_config(prog, backend, cfg)
-        res["evaluations"] += 1
-        nontriv = obs.dispatch != default.dispatch or info["evicted"] > 0 or info["warm_dispatches"] > 0
-        res["nontrivial"] += 1 if nontriv else 0
-        res["evictions"] += 1 if info["evicted"] else 0
-        res["warm_reuse"] += 1 if info["warm_dispatches"] else 0
-        res["trace_shapes"].add((pi, backend, tuple(obs.dispatch)))
-        res["outcomes"].add((pi, _term(obs), obs.pc, obs.cpu_exc, obs.vm_exc))
-        for sig, what in judge(prog, backend, cfg, ref, obs):
-            res["viol"].append(violation(sig, what, {"program": prog[0], "backend": backend, "n": n, "config": [list(d) for d in cfg]}))
-        if ci == idxs[0]:
-            res["samples"].append({"program": prog[0], "backend": backend, "config": [list(d) for d in cfg],
-                                   "dispatches": len(obs.dispatch), "single_step_instructions": len(ref.dispatch) - 1,
-                                   "ended": _term(obs)})
-    return res
+    return [(ci, run_config(PROGRAMS[pi], backend, cfgs[ci])) for ci in idxs]
 
 
 def run(ctx):
+    from mc.runner import violation
     _load()
     n = N_QUICK if ctx.quick else N_THOROUGH
-    progs = programs(ctx.quick)
+    pairs = program_backends(ctx.quick)
     cfgs = configs(n)
-    pairs = [(PROGRAMS.index(prog), backend) for prog in progs for backend in BACKENDS]
-    refs = dict(zip(pairs, ctx.pmap(ref_work, pairs)))
-    # shard by (program, backend, jit_maxline value): the configurations sharing a block length share the
-    # blocks the gcc backend has to compile
+    # shard by (program, backend, jit_maxline value): the configurations sharing a block length share the blocks the
+    # gcc backend has to compile (each new block costs a compiler run); the single-step reference (ml=1, me=1) is one
+    # of the enumerated configurations
     shards = []
     for (pi, backend) in pairs:
         groups = {}
         for ci, cfg in enumerate(cfgs):
             groups.setdefault(dict(cfg).get("ml", 50), []).append(ci)
         for ml in sorted(groups):
-            shards.append((pi, backend, n, groups[ml]) + refs[(pi, backend)])
+            g = groups[ml]
+            step = len(g) if backend == "gcc" else 24
+            for k in range(0, len(g), step):
+                shards.append((pi, backend, n, g[k:k + step]))
     results = ctx.pmap(work, shards)
-    cov = {"evaluations": 0, "distinct_nontrivial": 0, "configs_with_eviction": 0, "configs_with_warm_start": 0}
+    table = {}
+    for sh, res in zip(shards, results):
+        for ci, summ in res:
+            table.setdefault((sh[0], sh[1]), {})[cfgs[ci]] = summ
+    cov = {"evaluations": 0, "distinct_nontrivial": 0, "configs_with_eviction": 0, "configs_with_warm_start": 0,
+           "configs_with_coarser_trace_than_single_step": 0}
     outcomes, shapes, samples = set(), set(), []
     per_backend = {b: 0 for b in BACKENDS}
     ref_terms = {}
-    for sh, r in zip(shards, results):
-        cov["evaluations"] += r["evaluations"]
-        cov["distinct_nontrivial"] += r["nontrivial"]
-        cov["configs_with_eviction"] += r["evictions"]
-        cov["configs_with_warm_start"] += r["warm_reuse"]
-        per_backend[sh[1]] += r["evaluations"]
-        outcomes |= r["outcomes"]
-        shapes |= r["trace_shapes"]
-        ref_terms[PROGRAMS[sh[0]][0]] = "%s after %d instructions" % (_term(sh[4]), len(sh[4].dispatch) - 1)
-        ctx.add_violations(r["viol"])
-        if len(samples) < 4 and r["samples"]:
-            samples += r["samples"]
-    cov["programs"] = len(progs)
+    for (pi, backend) in pairs:
+        prog = PROGRAMS[pi]
+        tab = table[(pi, backend)]
+        ref = tab[REF_CFG]
+        if ref["term"] == "budget":
+            raise RuntimeError("reference run of %s hit the dispatch budget" % prog[0])
+        default = tab[()]
+        ref_terms["%s/%s" % (prog[0], backend)] = "%s after %d instructions" % (ref["term"], len(ref["dispatch"]) - 1)
+        for cfg in cfgs:
+            s = tab[cfg]
+            cov["evaluations"] += 1
+            per_backend[backend] += 1
+            nontriv = s["dispatch"] != default["dispatch"] or s["evicted"] > 0 or s["warm_dispatches"] > 0
+            cov["distinct_nontrivial"] += 1 if nontriv else 0
+            cov["configs_with_eviction"] += 1 if s["evicted"] else 0
+            cov["configs_with_warm_start"] += 1 if s["warm_dispatches"] else 0
+            cov["configs_with_coarser_trace_than_single_step"] += 1 if len(s["dispatch"]) < len(ref["dispatch"]) else 0
+            shapes.add((pi, backend, s["dispatch"]))
+            outcomes.add((pi, s["term"], s["pc"], s["cpu_exc"], s["vm_exc"]))
+            for sig, what in judge(prog, backend, cfg, tab.__getitem__):
+                ctx.violation(sig, what, {"program": prog[0], "backend": backend, "config": [list(d) for d in cfg]})
+        if len(samples) < 4:
+            cfg = cfgs[len(cfgs) // 2 + len(samples)]
+            samples.append({"program": prog[0], "backend": backend, "config": [list(d) for d in cfg],
+                            "dispatch_trace": [hex(x) for x in tab[cfg]["dispatch"]],
+                            "single_step_instructions": len(ref["dispatch"]) - 1, "ended": tab[cfg]["term"],
+                            "blocks_evicted": tab[cfg]["evicted"]})
+    cov["programs"] = len(set(pi for pi, _ in pairs))
+    cov["program_backend_pairs"] = len(pairs)
     cov["configs_per_program_and_backend"] = len(cfgs)
     cov["distinct_dispatch_traces"] = len(shapes)
     cov["distinct_outcomes"] = len(outcomes)
-    cov["programs_ending_in_a_fault"] = sum(1 for v in ref_terms.values() if not v.startswith("end"))
+    cov["reference_runs_ending_in_a_fault"] = sum(1 for v in ref_terms.values() if not v.startswith("end"))
     cov["per_backend"] = per_backend
     cov["reference_runs"] = ref_terms
-    cov["samples"] = samples[:4]
+    cov["samples"] = samples
     cov["exhaustive"] = True
     cov["bounds"] = {"deviation_bound": DEV_BOUND, "jit_maxline": [1, n], "max_exec_per_call": [0, n],
                      "cache_sizes": list(CACHE_SIZES), "warm": list(WARM), "backends": list(BACKENDS),
-                     "programs": [p[0] for p in progs], "arch": ARCH}
+                     "programs": {b: [PROGRAMS[pi][0] for pi, bb in pairs if bb == b] for b in BACKENDS}, "arch": ARCH}
     return cov
 
 
 def replay(case):
+    from mc.runner import violation
     _load()
     prog = [p for p in PROGRAMS if p[0] == case["program"]][0]
     cfg = tuple((d[0], d[1]) for d in case["config"])
     backend = case["backend"]
-    ref, _ = run_config(prog, backend, (("ml", 1), ("me", 1)))
-    obs, _ = run_config(prog, backend, cfg)
-    from mc.runner import violation
-    return [violation(sig, what, case) for sig, what in judge(prog, backend, cfg, ref, obs)]
+    memo = {}
+
+    def get(c):
+        if c not in memo:
+            memo[c] = run_config(prog, backend, c)
+        return memo[c]
+    return [violation(sig, what, case) for sig, what in judge(prog, backend, cfg, get)]
